@@ -101,10 +101,19 @@ class Gen:
     k = s.rng.randrange(1, 4)
     if ldepth < 2 and s.rng.random() < 0.35:
       s.features.add('nested-list')
-      return ('list', [s.gen_list(mk, ldepth + 1) for _ in range(k)])
-    if s.rng.random() < 0.7:
-      e = mk(); return ('list', [e] * k)          # [ X() for _ in range(k) ]
-    return ('list', [mk() for _ in range(k)])      # heterogeneous literal list
+      els = [s.gen_list(mk, ldepth + 1) for _ in range(k)]    # (rows are generated independently: ragged)
+    elif s.rng.random() < 0.7:
+      e = mk(); els = [e] * k                                   # [ X() for _ in range(k) ]
+    else:
+      els = [mk() for _ in range(k)]                            # heterogeneous literal list
+    if s.rng.random() < 0.35:
+      # entries that are not hardware objects: None holes and plain Python values, at the start / middle / end of a row.
+      # (pymtl3 only names a list attribute whose FIRST entry is an object or a list: the outermost list keeps entry 0)
+      for _ in range(s.rng.randrange(1, 3)):
+        pos = s.rng.randrange(1 if ldepth == 0 else 0, len(els) + 1)
+        els = els[:pos] + [('hole', s.rng.choice(['None', 'None', '7', '"x"', '0']), object())] + els[pos:]
+      s.features.add('list-with-holes' if ldepth == 0 else 'inner-list-with-holes')
+    return ('list', els)
 
   def gen_ifc(s, depth):
     kids = []
@@ -146,6 +155,7 @@ class Gen:
     if k in ('comp', 'ifc'): return f'{n[1]}()'
     if k == 'meth': return f'{n[1]}()'
     if k == 'sig': return f'{n[1]}( {n[2][1]} )'
+    if k == 'hole': return n[1]
     els = n[1]
     if len(els) > 1 and all(e is els[0] for e in els) or (len(els) == 1 and s.rng.random() < 0.5):
       return f'[ {s.expr(els[0])} for _ in range({len(els)}) ]'
@@ -258,7 +268,7 @@ class Gen:
     n = s.top if n is None else n
     if n[0] in ('comp', 'ifc'): return 1 + sum(s.weight(c) for _, c in n[2])
     if n[0] == 'list': return sum(s.weight(e) for e in n[1])
-    return 1
+    return 0 if n[0] == 'hole' else 1
 
   def source(s):
     return 'from pymtl3 import *\nfrom pymtl3.dsl import *\n' + s.struct_src() + '\n' + '\n'.join(s.classes) + f'\nTop = {s.top[1]}\n'
@@ -278,6 +288,7 @@ class Gen:
     if k == 'ifc': return '(NIfc [' + '; '.join(f'("{nm}"%string, {s.coq_node(c)})' for nm, c in n[2]) + '])'
     if k == 'meth': return 'NMeth'
     if k == 'sig': return s.coq_ftype(n[2])
+    if k == 'hole': return '(NList [])'          # not an object, nothing below it
     return '(NList [' + '; '.join(s.coq_node(e, s.sinks(e)) for e in n[1]) + '])'
 
   def sinks(s, n):
@@ -465,14 +476,20 @@ def python_checks(ctx, gname, src, top, obs, post):
         longest = next(p for p in pf if isinstance(eval(p, {'s': top}), NamedObject))
         if longest != pn: bad.append(('parent', f'parent of {n} is reported as {pn} but the enclosing object is {longest}', n))
     # field name (my_name / _my_name / _my_indices) = the last attribute hop of the name incl. its list indices
+    # for EVERY object: repr(owner) + '.' + get_field_name() is the full name, where the owner of a slice / bit / slice of a
+    # slice is the owner of the signal it was taken from (its field name = field name of that signal + '[lo:hi]')
     d_ = o._dsl
-    if o is not top and ob['level'] is not None:
+    if o is not top:
+      is_slice = isinstance(o, Signal) and d_.slice is not None
+      base = ob['par_obj'] if is_slice else o
+      owner = base.get_parent_object()
+      on = repr(owner)
       fn = o.get_field_name()
-      exp = n[len(ob['parent']) + 1:] if ob['parent'] and n.startswith(ob['parent'] + '.') else None
-      built = getattr(d_, '_my_name', None)
+      exp = n[len(on) + 1:] if n.startswith(on + '.') else None
+      built = None if is_slice else getattr(d_, '_my_name', None)
       if built is not None: built += ''.join(f'[{i}]' for i in (getattr(d_, '_my_indices', None) or ()))
-      if fn != exp or built != exp:
-        bad.append(('field-name', f'field name metadata of {n}: get_field_name() = {fn!r}, _my_name+_my_indices = {built!r}, the name says {exp!r}', n))
+      if fn != exp or (built is not None and built != exp) or (is_slice and fn != base.get_field_name() + f'[{d_.slice.start}:{d_.slice.stop}]'):
+        bad.append(('field-name', f'field name metadata of {n}: get_field_name() = {fn!r}, _my_name+_my_indices = {built!r}, the name relative to its owner {on} says {exp!r}', n))
     # level
     if ob['level'] is not None and ob['level'] != n.count('.'):
       bad.append(('level', f'level of {n} is {ob["level"]}, name has {n.count(".")} attribute hops', n))
